@@ -1738,6 +1738,120 @@ func (w *bWorld) dischargeLocationEpisode() {
 	w.specBundle(hdr)
 }
 
+// sharedDischargeEpisode: ONE discharge serves the ticket of several permission tokens (differently attenuated
+// copies of one root token, sent with the single discharge).  WithDischarges(f) keeps the discharge whenever ANY of
+// the tokens it serves matches f - whichever comes first in the header: the selected (or filtered) bundle prints
+// the matching copies and the discharge, verifies, and clears what the matching copy clears.
+func (w *bWorld) sharedDischargeEpisode() {
+	r, o := w.r, w.o
+	ctx := context.Background()
+	var bs []*bundle.Bundle
+	var ops, outs []string
+	defer func() {
+		if p := recover(); p != nil {
+			msg := strings.ReplaceAll(strings.SplitN(fmt.Sprint(p), "\n", 2)[0], " ", "_")
+			o.emit(fmt.Sprintf("(bundle.run (scope %s) %s %s %s %s)", bundleScope, w.sxKeys(), sxTrust(w.trusted), hs(w.permLoc), strings.Join(ops, " ")), "panic:"+msg)
+		}
+	}()
+	step := func(op, out string) {
+		ops = append(ops, op)
+		outs = append(outs, out+"~"+statesStr(bs))
+	}
+	kid := w.kids[0]
+	tp := w.tps[0]
+	root, err := macaroon.New(kid, w.permLoc, w.keys[string(kid)])
+	if err != nil {
+		panic(err)
+	}
+	root.Add(&flyio.Organization{ID: 1, Mask: resset.ActionAll})
+	it, err := newTP(tp.ka, tp.loc)
+	if err != nil {
+		panic(err)
+	}
+	if err := root.Add(it.cav); err != nil {
+		panic(err)
+	}
+	rootB := mustEnc(root)
+	// copies: the root itself (read+write) and 1-2 attenuated ones (read-only; a narrower window)
+	ro := resset.ActionRead
+	copies := []string{b64tok(w.label(), rootB)}
+	kinds := []string{"rw"}
+	for i, n := 0, 1+r.Intn(2); i < n; i++ {
+		c, _ := macaroon.Decode(rootB)
+		if i == 0 {
+			c.Add(&ro)
+			kinds = append(kinds, "ro")
+		} else {
+			c.Add(&macaroon.ValidityWindow{NotBefore: 0, NotAfter: 4_000_000_000})
+			kinds = append(kinds, "rw.window")
+		}
+		copies = append(copies, b64tok(w.label(), mustEnc(c)))
+	}
+	for i := len(copies) - 1; i > 0; i-- {
+		j := r.Intn(i + 1)
+		copies[i], copies[j] = copies[j], copies[i]
+		kinds[i], kinds[j] = kinds[j], kinds[i]
+	}
+	o.count("shareddis.order." + strings.Join(kinds, ","))
+	_, dm, err := macaroon.DischargeTicket(tp.ka, tp.loc, it.tp.ticket)
+	if err != nil {
+		panic(err)
+	}
+	dis := b64tok(w.label(), mustEnc(dm))
+	parts := append(append([]string{}, copies...), dis)
+	if r.Bool() { // the discharge anywhere in the header
+		at := r.Intn(len(parts))
+		parts[at], parts[len(parts)-1] = parts[len(parts)-1], parts[at]
+	}
+	hdr := "FlyV1 " + strings.Join(parts, ",")
+	mkReq := func(a resset.Action) (macaroon.Access, string) {
+		d := r.Dyn()
+		d.WF, d.NowSec, d.NowNsec, d.Org, d.Action = "", baseNow, 0, p64(1), a
+		return d.As("org"), d.Sx("org")
+	}
+	wAcc, wSx := mkReq(resset.ActionWrite)
+	rAcc, rSx := mkReq(resset.ActionRead)
+	verify := func(i int) {
+		cs, err := bs[i].Verify(ctx, w.resolver())
+		o.count("shareddis.verify." + flagStr(err))
+		step(fmt.Sprintf("(verify %d)", i), setsStr(cs, err))
+		step(fmt.Sprintf("(validate %d %s)", i, wSx), flagStr(bs[i].Validate(wAcc)))
+		step(fmt.Sprintf("(validate %d %s)", i, rSx), flagStr(bs[i].Validate(rAcc)))
+	}
+	b, perr := bundle.ParseBundle(w.permLoc, hdr)
+	bs = append(bs, b)
+	e := "n"
+	if perr != nil {
+		e = "e"
+	}
+	step(fmt.Sprintf("(parse %s default)", hs(hdr)), "new0:"+e)
+	step("(header 0)", hs(b.Header()))
+	verify(0)
+	// the copies that allow the write / only those that do not, each with the discharge
+	allowsW := bundle.AllowsAccess(wAcc)
+	bs = append(bs, b.Select(b.WithDischarges(allowsW)))
+	step(fmt.Sprintf("(select 0 (withDischarges (allows %s)))", wSx), fmt.Sprintf("new%d", len(bs)-1))
+	step("(header 1)", hs(bs[1].Header()))
+	verify(1)
+	notW := bundle.And(bundle.IsVerifiedMacaroon, bundle.Not(allowsW))
+	bs = append(bs, b.Select(b.WithDischarges(notW)))
+	step(fmt.Sprintf("(select 0 (withDischarges (and ver (not (allows %s)))))", wSx), fmt.Sprintf("new%d", len(bs)-1))
+	step("(header 2)", hs(bs[2].Header()))
+	verify(2)
+	step(fmt.Sprintf("(count 0 (withDischarges (allows %s)))", wSx), fmt.Sprint(b.Count(b.WithDischarges(allowsW))))
+	// and in place, on a clone
+	bs = append(bs, b.Clone())
+	step("(clone 0)", fmt.Sprintf("new%d", len(bs)-1))
+	verify(3)
+	bs[3].Filter(bs[3].WithDischarges(allowsW))
+	step(fmt.Sprintf("(filter 3 (withDischarges (allows %s)))", wSx), "-")
+	step("(header 3)", hs(bs[3].Header()))
+	verify(3)
+	o.emit(fmt.Sprintf("(bundle.run (scope %s) %s %s %s %s)", bundleScope, w.sxKeys(), sxTrust(w.trusted), hs(w.permLoc), strings.Join(ops, " ")),
+		strings.Join(outs, " | "))
+	w.specBundle(hdr)
+}
+
 // dupAttenuationEpisode: ONE Attenuate call with several caveats among which Add skips duplicates —
 // of a caveat the token already carries, or of an earlier element of the list — at every position
 // (first, in between, last).  For a verified token the verified set must gain exactly the caveats that
@@ -2202,6 +2316,7 @@ func famBundle(r *Rng, o *Out, tier string) {
 		w.failedAttenuationEpisode()
 		w.dischargeLocationEpisode()
 		w.dupAttenuationEpisode()
+		w.sharedDischargeEpisode()
 		if r.Chance(1, 3) {
 			w.confusableLocationsEpisode()
 		}
